@@ -10,9 +10,10 @@ DRIVER = "drivers/C20.lean"
 SPEC_DRIVER = "drivers/SpecC20.lean"
 DRIVER_MODULES = ["BioCantor.Driver.Main", "BioCantor.Driver.Aggregates"]
 SPEC_DRIVER_MODULES = ["BioCantor.Driver.Main", "BioCantor.Driver.SpecAggregates"]
-MODEL_OPS = {"gene", "gmt", "gmc", "fcoll", "fmf", "acoll", "acollp"}       # gacc: real objects with sequence vs the spec only
+MODEL_OPS = {"gene", "genek", "gmt", "gmc", "fcoll", "fcollk", "fmf", "acoll", "acollp"}       # gacc: real objects with sequence vs the spec only
 ERR_CLASS = True
-RULE = ("gene / fcoll: every list of <= K children (K=3 quick, 4 thorough) over 8 transcript (6 feature) templates "
+RULE = ("genek / fcollk: the gene / fcoll lists with one child fewer, built on 7 sequence-chunk windows x both chunk "
+        "strands (members contained in / cut by / outside the chunk); gene / fcoll: every list of <= K children (K=3 quick, 4 thorough) over 8 transcript (6 feature) templates "
         "with ties in CDS size and in spliced length, a zero-length child, adjacent blocks, x primary flag 0/1; "
         "gmt / gmc / fmf: the same lists x strand +/- per child (flags off); acoll: every pair of gene / "
         "feature-collection lists with <= 2 members each over 4 spans x the 4 bound-argument shapes, and with a "
@@ -50,6 +51,7 @@ FEAT = [
     ([(2, 4), (4, 6)], ["b"]),
 ]
 SPANS = [(0, 5), (0, 9), (3, 8), (5, 6)]
+CHUNKS = [(0, 12), (0, 5), (3, 9), (4, 6), (1, 4), (5, 10), (7, 8)]
 
 
 def impl(line):
@@ -65,6 +67,8 @@ def nontrivial(line, ans):
     op = t[0]
     if op in ("gene", "fcoll", "fmf", "gacc"):
         return line if int(t[1]) >= 2 else None
+    if op in ("genek", "fcollk"):
+        return line if int(t[4]) >= 2 else None
     if op in ("gmt", "gmc"):
         return line if int(t[2]) >= 2 else None
     if op == "acollp":
@@ -105,6 +109,26 @@ def _exhaustive(run, kmax):
         cs = [feat_child(k, "+", f) for k, f in sel]
         run.count(f"fcoll:n{len(sel)}")
         yield "fcoll " + enc_children(cs)
+    # the same aggregates of objects built on a sequence chunk (either strand) that contains / cuts / misses members
+    kk = kmax - 1
+    opts = [(k, f) for k in range(len(TX)) for f in (False, True)]
+    for sel in _lists(opts, kk):
+        if not sel:
+            continue
+        cs = [tx_child(k, "+", f) for k, f in sel]
+        for lo, hi in CHUNKS:
+            for cst in "+-":
+                run.count(f"genek:n{len(sel)}")
+                yield f"genek {lo} {hi} {cst} " + enc_children(cs)
+    opts = [(k, f) for k in range(len(FEAT)) for f in (False, True)]
+    for sel in _lists(opts, kk):
+        if not sel:
+            continue
+        cs = [feat_child(k, "+", f) for k, f in sel]
+        for lo, hi in CHUNKS:
+            for cst in "+-":
+                run.count(f"fcollk:n{len(sel)}")
+                yield f"fcollk {lo} {hi} {cst} " + enc_children(cs)
     # merged features: templates x strand
     mk = kmax if kmax <= 3 else 3
     opts = [(k, s) for k in range(len(TX)) for s in "+-"]
@@ -192,6 +216,11 @@ def _random(run, n):
         cs = [_rand_tx(rng, genome, st0 if one_strand else rng.choice("+-"), i in flagged) for i in range(k)]
         run.count(f"rand:gene:n{k}")
         yield "gene " + enc_children(cs)
+        lo = rng.randint(0, genome - 1)
+        hi = rng.randint(lo + 1, genome)
+        cst = rng.choice("+-")
+        run.count("rand:genek")
+        yield f"genek {lo} {hi} {cst} " + enc_children(cs)
         plain = [dict(c, primary=False) for c in cs]
         yield "gmt 1 " + enc_children(plain)
         yield "gmc 1 " + enc_children(plain)
@@ -202,6 +231,7 @@ def _random(run, n):
             fs.append(dict(strand=c["strand"], primary=c["primary"], blocks=c["blocks"], cds=[],
                            types=rng.sample(["a", "b", "c", "Gene", "x y"], rng.randint(0, 3))))
         yield "fcoll " + enc_children(fs)
+        yield f"fcollk {lo} {hi} {cst} " + enc_children(fs)
         yield "fmf " + enc_children([dict(c, primary=False) for c in fs])
         ng, nf = rng.randint(0, 4), rng.randint(0, 4)
         gl = [tuple(sorted((rng.randint(0, 30), rng.randint(0, 30)))) for _ in range(ng)]
